@@ -222,7 +222,7 @@ impl<'a> Pp<'a> {
             };
         }
         match self.rng.below(30) {
-            0..=2 => self.rng.pick(&["0", "1", "2", "0u", "1L", "0x10", "4294967296", "99999999999999999999", "1.0", "'a'", "\"s\""]).to_string(),
+            0..=2 => self.rng.pick(&["0", "1", "2", "0u", "1L", "0x10", "4294967296", "99999999999999999999", "1.0", "'a'", "\"s\"", "true", "false", "4294967296u", "1ul", "017"]).to_string(),
             3..=5 => {
                 self.cat("cond-macro");
                 self.obj_name()
@@ -261,6 +261,17 @@ impl<'a> Pp<'a> {
             21..=23 if depth > 0 => format!("({})", self.cond(depth - 1)),
             24..=25 if depth > 0 => format!("!{}", self.cond_atom(depth - 1)),
             26 => format!("-{}", self.cond_atom(0)),
+            27..=28 => {
+                // an object-like macro in operator position: its expansion (`defined`, the name of a function-like
+                // macro) meets the operand only after the replacement
+                self.cat("cond-object-macro-then-operand");
+                let o = self.obj_name();
+                match self.rng.below(3) {
+                    0 => format!("{} {}", o, self.plain_ident()),
+                    1 => format!("{}({})", o, self.plain_ident()),
+                    _ => format!("{} ({}, {})", o, self.plain_ident(), self.plain_ident()),
+                }
+            }
             _ => self.obj_name(),
         }
     }
@@ -315,6 +326,17 @@ impl<'a> Pp<'a> {
                 let c = self.call(0, &mut f);
                 format!("{} {}", c, self.obj_name())
             }
+            30..=31 => {
+                // the body is (or ends with) the name of a function-like macro or `defined`: the invocation is
+                // completed by the tokens that follow the expansion
+                self.cat("body-ends-with-function-name");
+                match self.rng.below(4) {
+                    0 => "defined".to_string(),
+                    1 => self.fn_macro().0,
+                    2 => format!("1 + {}", self.fn_macro().0),
+                    _ => format!("{} (", self.fn_macro().0),
+                }
+            }
             8..=9 => {
                 self.cat("body-recursive");
                 match self.rng.below(4) {
@@ -345,7 +367,7 @@ impl<'a> Pp<'a> {
                 self.cat("body-paste");
                 let a = p(self);
                 let b = p(self);
-                match self.rng.below(11) {
+                match self.rng.below(14) {
                     0 | 1 => format!("{} ## {}", a, b),
                     2 => format!("{} ##", a),
                     3 => format!("## {}", a),
@@ -355,6 +377,9 @@ impl<'a> Pp<'a> {
                     7 => "##".to_string(),
                     8 => format!("{} ## {}", self.obj_name(), a),
                     9 => format!("{}##{}##{}", a, b, a),
+                    10 => format!("{} ## \"", a),
+                    11 => format!("\" ## {}", a),
+                    12 => format!("{} ## /* c */ {}", a, b),
                     _ => format!("{} ## +", a),
                 }
             }
